@@ -1,13 +1,97 @@
 /-
-Oracle ops for the `arsh` family.  Owned by the slice that models it; see AGENT_GUIDE.md.
+Oracle ops for the `arsh` family (L3 unmarshal model, C14).
+
+Encodings of types, values and trees: see `Model/GoVal.lean` (`GoWire`) and `Spec/Tree.lean`
+(`TreeWire`).  `<o>` is the option word: `0` default options, `1` UnmarshalArrayFromAnyLength.
+
+    arsh zero <type>                          → <value>
+    arsh wf <type>                            → 0|1
+    arsh dupfree <tree>                       → 0|1
+    arsh merge <tree1> <tree2>                → <tree>
+    arsh mergeall <k> <tree>×k                → <tree>          (left fold, `null` for k = 0)
+    arsh unm <o> <type> <tree> <prior-value>  → ok <value> | E<class>
+    arsh chain <o> <type> <k> <tree>×k        → results of the k successive calls starting from the
+                                                 zero value, joined by ` ; ` (stops after the first E)
+Error classes: kind numsyntax range dup arraylen illtyped unmodelled.
 -/
 import JsonV.Oracle.Util
+import JsonV.Model.Unmarshal
 
 namespace JsonV.Oracle.Arsh
-open JsonV JsonV.Oracle
+open JsonV JsonV.Oracle JsonV.Spec JsonV.Model
+
+def errStr : Err → String
+  | .kind => "Ekind" | .numSyntax => "Enumsyntax" | .range => "Erange" | .dup => "Edup"
+  | .arrayLen => "Earraylen" | .illTyped => "Eilltyped" | .unmodelled => "Eunmodelled"
+
+def resStr : Except Err GoVal → String
+  | .ok v => "ok " ++ GoWire.renderVal v
+  | .error e => errStr e
+
+def parseOpt : String → Option UOpts
+  | "0" => some { arrayAnyLen := false }
+  | "1" => some { arrayAnyLen := true }
+  | _ => none
+
+def parseTrees : Nat → List String → Option (List JTree × List String)
+  | 0, r => some ([], r)
+  | k+1, toks =>
+    match TreeWire.parseTree toks with
+    | some (j, r) => (parseTrees k r).map (fun (js, r') => (j :: js, r'))
+    | none => none
+
+def chainStr (o : UOpts) (T : GoType) : List JTree → GoVal → List String
+  | [], _ => []
+  | j :: js, v =>
+    match unm o T j v with
+    | .error e => [errStr e]
+    | .ok v' => ("ok " ++ GoWire.renderVal v') :: chainStr o T js v'
 
 def handle (op : String) (args : List String) : String :=
   match op, args with
-  | _, _ => "ERR unimplemented"
+  | "zero", toks =>
+    match GoWire.parseTypeToks toks with
+    | some (t, []) => GoWire.renderVal t.zero
+    | _ => badArgs
+  | "wf", toks =>
+    match GoWire.parseTypeToks toks with
+    | some (t, []) => boolStr t.wf
+    | _ => badArgs
+  | "dupfree", toks =>
+    match TreeWire.parseTree toks with
+    | some (j, []) => boolStr j.dupFree
+    | _ => badArgs
+  | "merge", toks =>
+    match parseTrees 2 toks with
+    | some ([a, b], []) => TreeWire.render (JTree.merge a b)
+    | _ => badArgs
+  | "mergeall", k :: toks =>
+    match k.toNat? with
+    | some k =>
+      match parseTrees k toks with
+      | some (js, []) => TreeWire.render (JTree.mergeAll js)
+      | _ => badArgs
+    | none => badArgs
+  | "unm", o :: toks =>
+    match parseOpt o, GoWire.parseTypeToks toks with
+    | some o, some (t, r) =>
+      match TreeWire.parseTree r with
+      | some (j, r') =>
+        match GoWire.parseValToks r' with
+        | some (p, []) => resStr (unm o t j p)
+        | _ => badArgs
+      | none => badArgs
+    | _, _ => badArgs
+  | "chain", o :: toks =>
+    match parseOpt o, GoWire.parseTypeToks toks with
+    | some o, some (t, k :: r) =>
+      match k.toNat? with
+      | some k =>
+        match parseTrees k r with
+        | some (js, []) => " ; ".intercalate (chainStr o t js t.zero)
+        | _ => badArgs
+      | none => badArgs
+    | _, _ => badArgs
+  | _, _ => badArgs
 
 end JsonV.Oracle.Arsh
